@@ -3,3 +3,4 @@ import CoseModel.Cbor
 import CoseModel.GoVal
 import CoseModel.Headers
 import CoseModel.Messages
+import CoseModel.Ecdsa
